@@ -92,13 +92,16 @@ class Rev:
 
 class SeedDoc:
     def __init__(self, name, revs, root=Ref(1), info=None, trailer_extra=None, sec=None, encrypt_obj=None,
-                 expect=(), features=(), bulk_owners=(), fstride=1):
+                 expect=(), features=(), bulk_owners=(), fstride=1, nocache=True, skip_sites=None, double=None):
         self.name = name
         # bulk_owners: objects that are plain copies of a described one (hundreds of identical pages): they are written
         # but contribute no sites / cross-reference entries of their own to the abstract seed;  fstride: the file is cut
         # at every fstride-th length only (long files whose every run is costly)
         self.bulk_owners = set(bulk_owners)
         self.fstride = fstride
+        self.nocache = nocache            # cycle faults are also run with the entry points' caches off
+        self.skip_sites = skip_sites      # predicate on site ids: sites left out of the abstract seed (copies)
+        self.double = double              # () -> the same document with twice as many members (scaling check)
         self.revs = revs
         self.root = root
         self.info = info
@@ -739,5 +742,8 @@ def describe(seed):
         packed = set(rev.packed) if rev.form != "table" else set()
         direct.update("obj:%d" % n for n in rev.objects if n not in packed)
         direct.difference_update("obj:%d" % n for n in rev.objects if n in packed)
+    if seed.skip_sites:
+        sites = [x for x in sites if not seed.skip_sites(x["id"])]
     return {"name": seed.name, "sites": sites, "streams": streams, "ents": ents, "flen": len(data),
+            "nocache": seed.nocache,
             "enc": seed.sec is not None, "direct_owners": sorted(direct), "fstride": seed.fstride}, data, lay
